@@ -394,7 +394,7 @@ class SetModel(explorer.Model):
 
         self.check_state(ctx, w, case0, mkbad(['state']))
         rs = set(r)
-        for kind in ('oset', 'qset', 'list', 'tuple'):
+        for kind in ('oset', 'qset', 'list', 'tuple', 'gen'):
             for e in self.operands:
                 self.probe(ctx, w, ['probe', 'all', kind, e], mkbad)
         # repr round trip
@@ -428,6 +428,8 @@ class SetModel(explorer.Model):
             checks.append(('lt', lambda: s < operand(), rs < os_))
             checks.append(('ge', lambda: s >= operand(), rs >= os_))
             checks.append(('gt', lambda: s > operand(), rs > os_))
+        if kind == 'gen':
+            checks = []        # a one-shot iterator is an operand of the algebra below only (it is no collection to compare with)
         for nm, fn, exp in checks:
             ctx.count('probes')
             try:
@@ -467,6 +469,18 @@ class SetModel(explorer.Model):
                 s.clear()
                 s |= snapshot
                 continue
+            if self.clsname == 'QuerySet':
+                # the result of query-set algebra is a query set: first and last agree with its content
+                try:
+                    fl = (res.first, res.last)
+                except Exception as e:
+                    fl = 'raised ' + type(e).__name__
+                rest = lst(res)
+                want = (rest[0], rest[-1]) if rest else (None, None)
+                if fl != want:
+                    bad(nm + '-firstlast', 'result of %s with %s %r (a %s) has first/last %r, its content is %r' %
+                        (nm, kind, ovals, type(res).__name__, fl, rest), repr(want), repr(fl))
+                    continue
             if set(got) != exp or len(got) != len(exp) or ln != len(exp):
                 bad(nm, '%s with %s %r gives %r, expected the elements %r' % (nm, kind, ovals, got, sorted(exp, key=repr)),
                     sorted(map(repr, exp)), list(map(repr, got)))
